@@ -1333,6 +1333,15 @@ trait RecordD {
                 && (r matches Some(x) ==> (x is Ok <==> valid_utf8(desc_of(self.head_s()).unwrap())) && (x matches Ok(t) ==> str_bytes(t) == desc_of(self.head_s()).unwrap())),
 //@end
 
+//@fn fasta::Record::id_desc ret=r tags=C13,C06
+//@spec
+        requires self.rwf(),
+        ensures
+            [C13|fasta.Record.id_desc.ok_iff_header_utf8] r is Ok <==> valid_utf8(self.head_s()),
+            [C13|fasta.Record.id_desc] r matches Ok(p) ==> str_bytes(p.0) == id_of(self.head_s())
+                && (p.1 matches Some(d) ==> desc_of(self.head_s()) == Some(str_bytes(d))) && (p.1 is None ==> desc_of(self.head_s()) is None),
+//@end
+
 //@fn fasta::Record::id_desc_bytes ret=r tags=C13,C06
 //@spec
         requires self.rwf(),
